@@ -8,6 +8,8 @@ R1  (sign/range domain) the timespec handed to the kernel wait has tv_sec >= 0 a
 R3  no early timeout: ETIMEDOUT is defined only under result=-1, errno=ETIMEDOUT and deadline<=now (shared with C12.R3), and the
     kernel gets no timeout only for nsync_time_no_deadline (C12.R5).
 R4  nsync_time_add keeps the nanosecond field normalised (the deadlines the library and its callers compute are valid kernel timeouts).
+R6  the wait loops of the cv / mu waits reach the deadline-carrying sleep in their first iteration on every path (= C05.R8): no spinning on an
+    expired deadline.
 R5  nsync_time_cmp orders every representable pair, extremes included (shared engine with C18).
 Promptness in wall-clock terms is not decided."""
 from .. import util, ir as IR, futexmodel
@@ -61,6 +63,10 @@ def run(ctx, rep):
     rep.rule('C15.R4', 'nsync_time_add yields a normalised nanosecond field for normalised operands (deadlines it produces are valid kernel timeouts)')
     rep.rule('C15.R5', 'nsync_time_cmp orders every pair of representable times, including no_deadline and pre-epoch instants (no wrap)')
     C18.check(ctx, rep, {'addsub': 'C15.R4', 'cmp': 'C15.R5'}, addsub=(('nsync_time_add', 1),))
+    # R6: an already expired deadline does not hang in the cv / mu wait loops (same rule as C05.R8)
+    from .C05 import check_first_iteration_sleeps
+    rep.rule('C15.R6', 'the first iteration of each wait loop reaches the deadline-carrying sleep: an expired deadline is applied at once, not spun on')
+    check_first_iteration_sleeps(mod, rep, 'C15.R6')
     rep.floor('C15.R4', 2)
     rep.floor('C15.R5', 6)
     rep.assumptions += ['deadlines have a normalised nanosecond field (0 <= ns < 1e9), as the property states for nsync_time values',
